@@ -252,41 +252,58 @@ def interval(ctx, fn):
             ctx.prove(not k.sleeps, "nonblocking-never-sleeps")
 
 
-@harness("C07.proc_percent", quick=[dict(D=D, ncpu=n) for D in (0, 1, "1/1000") for n in (1, 4)],
-         thorough=[dict(D=D, ncpu=n) for D in (0, 1, "1/1000", "7/2", 86400) for n in (1, 2, 4, 64)])
-def proc_percent(ctx, D, ncpu):
-    """Process.cpu_percent() = 100 * (CPU seconds used) / (wall seconds elapsed) since the previous call; 0.0 on
-    the first call and when no wall time elapsed."""
+@harness("C07.proc_percent", quick=[dict(D=D, ncpu=n) for D in (0, 1, "1/1000") for n in (1, 4)] + [dict(D=1, ncpu=2, modes=m) for m in ("nbn", "bnn", "bbn", "nbb")],
+         thorough=[dict(D=D, ncpu=n) for D in (0, 1, "1/1000", "7/2", 86400) for n in (1, 2, 4, 64)] + [dict(D=D, ncpu=n, modes=m) for D in (1, "1/1000") for n in (1, 4) for m in ("nbn", "bnn", "bbn", "nbb", "bnb", "bbb")])
+def proc_percent(ctx, D, ncpu, modes="nnn"):
+    """Process.cpu_percent() = 100 * (CPU seconds used) / (wall seconds elapsed) since the previous call on that object (whether
+    that call was blocking or not); a blocking call measures its own interval; 0.0 on the first non-blocking call and when no wall
+    time elapsed.  modes: one letter per call, n = cpu_percent(None), b = cpu_percent(interval=D)."""
     import fractions
 
     D = fractions.Fraction(D)
     k = simk.Kernel(ctx)
     simk.system_files(k)
     k.sysconf["SC_NPROCESSORS_ONLN"] = ncpu
-    u = [ctx.int(f"u{i}", 0, 2**64 - 1) for i in range(3)]
-    s = [ctx.int(f"s{i}", 0, 2**64 - 1) for i in range(3)]
+    N = 2 * len(modes) + 1
+    u = [ctx.int(f"u{i}", 0, 2**64 - 1) for i in range(N)]
+    s = [ctx.int(f"s{i}", 0, 2**64 - 1) for i in range(N)]
     t0 = ctx.real("t0", 0, 10**9)
     state = {"i": 0}
     simk.full_process(k, 77)
     k.files["/proc/77/stat"] = lambda: simk.stat_record(k, 77, b"cat", b"S", {4: 1, 14: u[state["i"]], 15: s[state["i"]], 22: 5000})
+    plain_sleep = k.sleep
+
+    def sleep(d):                  # while the caller sleeps the process goes on ticking: the next sample is a new one
+        plain_sleep(d)
+        state["i"] += 1
+
+    k.sleep = sleep
+    results, prev = [], None       # prev = (time, sample index) of the end of the previous call
     with k.installed():
         p = psutil.Process(77)
         k.now = t0
-        first = p.cpu_percent()
-        state["i"] = 1
-        k.now = t0 + D
-        second = p.cpu_percent()
-        state["i"] = 2
-        k.now = t0 + D + D
-        third = p.cpu_percent(None)
-    ctx.observe("proc_percent", (first, second, third))
-    ctx.prove(ctx.eq(first, 0), "proc-first-call-zero")
-    for r, i in ((second, 1), (third, 2)):
-        dp = (u[i] - u[i - 1]) + (s[i] - s[i - 1])
-        if D == 0:
+        for j, m in enumerate(modes):
+            if j:
+                k.now = k.now + D
+                state["i"] += 1
+            start = (k.now, state["i"])
+            r = p.cpu_percent(float(D) if D.denominator in (1, 2) else D) if m == "b" else p.cpu_percent(None)
+            end = (k.now, state["i"])
+            results.append((r, m, start if m == "b" else prev, end))
+            prev = end
+    ctx.observe("proc_percent", tuple(r for r, *_ in results))
+    for j, (r, m, ref, end) in enumerate(results):
+        if ref is None:
+            ctx.prove(ctx.eq(r, 0), "proc-first-call-zero")
+            continue
+        wall = end[0] - ref[0]
+        dp = (u[end[1]] - u[ref[1]]) + (s[end[1]] - s[ref[1]])
+        tag = "" if modes == "nnn" else "[after-blocking-call]" if j and modes[j - 1] == "b" and m == "n" else "[blocking]" if m == "b" else ""
+        if wall == 0:
             ctx.prove(ctx.eq(r, 0), "proc-zero-wall-zero")
         elif ctx.symbolic:
             src = getattr(r, "round_src", None)
-            ctx.prove(src is not None and ctx.eq(src[0] * D * CLK, 100 * dp), "proc-cpu_percent-formula")
+            # (a plain number instead of a rounded term -- e.g. a literal 0.0 -- is compared as it is)
+            ctx.prove(ctx.eq(src[0] * wall * CLK, 100 * dp) if src is not None else ctx.eq(r * wall * CLK, 100 * dp), "proc-cpu_percent-formula" + tag, detail=f"call {j} ({modes})")
         else:
-            ctx.prove(abs(r - 100.0 * dp / CLK / float(D)) <= 0.05 + 1e-6 * abs(r), "proc-cpu_percent-formula")
+            ctx.prove(abs(r - 100.0 * dp / CLK / float(wall)) <= 0.05 + 1e-6 * abs(r), "proc-cpu_percent-formula" + tag, detail=f"call {j} ({modes}): {r}")
